@@ -627,7 +627,9 @@ def knot_insertion_alpha(u, knotvector, span, idx, leg):
     :return: coefficient value
     :rtype: float
     """
-    return (u - knotvector[leg + idx]) / (knotvector[idx + span + 1] - knotvector[leg + idx])
+    # The value is memoised, and the key of a request in single precision (e.g. numpy.float32) is equal to the key of the same
+    # request in double precision: it is computed from Python floats whatever the types of the arguments are
+    return (float(u) - float(knotvector[leg + idx])) / (float(knotvector[idx + span + 1]) - float(knotvector[leg + idx]))
 
 
 def knot_insertion_kv(knotvector, u, span, r):
@@ -785,7 +787,8 @@ def knot_removal_alpha_i(u, degree, knotvector, num, idx):
     :return: coefficient value
     :rtype: float
     """
-    return (u - knotvector[idx]) / (knotvector[idx + degree + 1 + num] - knotvector[idx])
+    # (computed from Python floats: the value is memoised and keys of different numeric types are equal)
+    return (float(u) - float(knotvector[idx])) / (float(knotvector[idx + degree + 1 + num]) - float(knotvector[idx]))
 
 
 @lru_cache(maxsize=int(os.environ['GEOMDL_CACHE_SIZE']) if "GEOMDL_CACHE_SIZE" in os.environ else 128)
@@ -807,7 +810,8 @@ def knot_removal_alpha_j(u, degree, knotvector, num, idx):
     :return: coefficient value
     :rtype: float
     """
-    return (u - knotvector[idx - num]) / (knotvector[idx + degree + 1] - knotvector[idx - num])
+    # (computed from Python floats: the value is memoised and keys of different numeric types are equal)
+    return (float(u) - float(knotvector[idx - num])) / (float(knotvector[idx + degree + 1]) - float(knotvector[idx - num]))
 
 
 def knot_removal_kv(knotvector, span, r):
